@@ -1,4 +1,5 @@
 import OVM.IO.Ovmb.FramingLemmas
+import OVM.IO.Ovmb.RoundTripExample
 /-
   C18 — OVMB detects truncation, framing corruption and stream failures.
 
@@ -8,6 +9,15 @@ import OVM.IO.Ovmb.FramingLemmas
   chunk drop / duplication / reordering, read-fault and write-fault position is given to both and the result
   class (and mesh, when Ok) compared; independently of the model a truncation or failing source that reads back
   Ok is a failing input by itself.
+
+  **Truncation and read faults (end to end)**: `strict_prefix_rejected`, `read_fault_rejected` — for every file
+  `F` the writer can be given (no well-formedness needed, only that the file is shorter than 2^64 bytes), every
+  `p < (encode F).length` and EVERY reader configuration, neither the prefix of length `p` nor a stream that
+  announces the full size and stops delivering at `p` is read successfully.  The generic form
+  `framed_strict_prefix_rejected` covers every byte string `48-byte header ++ well-framed chunks` in which only
+  the last chunk is an EOF chunk — whatever the header and the payloads contain (so also every alternative
+  layout).  Lemmas: OVM/IO/Ovmb/RoundTripFrame.lean (`readChunk_full`, `readChunk_partial`, `processChunk_ep`,
+  `loop_truncated`, `decodeStream_truncated`), RoundTripTrunc.lean.
 -/
 namespace OVM.Props.C18
 open OVM.Ovmb OVM.Gen.Ovmb
@@ -24,6 +34,41 @@ theorem shorter_than_header_rejected (cfg : Cfg) (bytes : Bytes) (h : bytes.leng
 /-- every successful `read_chunk` consumes at least a chunk header: the loop cannot spin -/
 theorem chunk_consumes (cfg : Cfg) (s s' : RState) (st st' : Stream) (h : readChunk cfg s st = .ok (s', st')) :
     st'.rem + sizeChunkHeader ≤ st.rem := readChunk_rem_lt h
+
+/-- **every strict prefix of a file the writer produces is rejected**, for every reader configuration -/
+theorem strict_prefix_rejected (cfg : Cfg) (F : File) (hs : SizeOk F) (p : Nat) (hp : p < (encode F).length)
+    (F' : File) : decode cfg ((encode F).take p) ≠ .ok F' := decode_prefix_rejected cfg F hs p hp F'
+
+/-- **a read failure of the underlying stream at any position before the end is never Ok**: the stream announces
+    the full size and delivers only the first `p` bytes -/
+theorem read_fault_rejected (cfg : Cfg) (F : File) (hs : SizeOk F) (p : Nat) (hp : p < (encode F).length)
+    (F' : File) : decodeFaulty cfg (encode F) p ≠ .ok F' := decodeFaulty_rejected cfg F hs p hp F'
+
+/-- generic form: any byte string `file header ++ well-framed chunks` whose only EOF chunk (if any) is the last
+    chunk — whatever the header fields and chunk payloads are — has no strict prefix that reads Ok, truncated
+    or through a failing stream -/
+theorem framed_strict_prefix_rejected (cfg : Cfg) (bytes hdr : Bytes) (cs : List ChunkD)
+    (hb : bytes = hdr ++ (cs.map ChunkD.bytes).flatten) (hh : hdr.length = sizeFileHeader)
+    (hfit : ∀ c ∈ cs, c.Fits) (hne : ∀ c ∈ cs.dropLast, c.notEof) (p : Nat) (hp : p < bytes.length) (F' : File) :
+    decode cfg (bytes.take p) ≠ .ok F' ∧ decodeFaulty cfg bytes p ≠ .ok F' :=
+  framed_prefix_rejected cfg bytes hdr cs hb hh hfit hne p hp F'
+
+/-- only a version-0 chunk of type EOF sets `reached_eof_chunk`: every other chunk, whatever it contains and
+    whether it is accepted or not, leaves the flag as it was -/
+theorem only_eof_chunk_sets_eof (cfg : Cfg) (s s' : RState) (h : ChunkHdr) (payload : Bytes)
+    (hne : ¬(h.ty = ccEOF ∧ h.version = 0)) (hok : processChunk cfg s h payload = .ok s') : s'.eof = s.eof :=
+  processChunk_ep cfg s h payload hne s' hok
+
+/-! non-vacuity (evaluation on one input, a test): the one-tetrahedron file is 440 bytes long, so the two theorems
+    speak about 440 prefixes / fault positions of it, for the tetrahedral reader with topology check as for any
+    other; the complete file does read Ok (C06 `writer_roundtrip`), so rejection is due to the truncation -/
+example : ∀ p < 440, ∀ F', decode Example.tetCfg ((encode Example.tetFile).take p) ≠ .ok F' := fun p hp F' =>
+  strict_prefix_rejected _ _ Example.tetFile_size p (by rw [Example.tetFile_length]; exact hp) F'
+example : ∀ p < 440, ∀ F', decodeFaulty Example.tetCfg (encode Example.tetFile) p ≠ .ok F' := fun p hp F' =>
+  read_fault_rejected _ _ Example.tetFile_size p (by rw [Example.tetFile_length]; exact hp) F'
+example : decode Example.tetCfg (encode Example.tetFile) = .ok Example.tetFile :=
+  decode_encode _ _ Example.tetFile_wf Example.tetFile_accepts Example.tetFile_size Example.tetFile_faces
+    Example.tetFile_cells
 
 /-- write side: `Ok` only when the mesh needs no garbage collection and the stream took every byte of the
     file, in order -/
